@@ -48,6 +48,7 @@ type Features struct {
 	Poll            bool `json:"poll"`
 	Councilor       bool `json:"councilor"`
 	Identity        bool `json:"identity"`
+	UniqueKeyClash  bool `json:"unique_key_clash"`
 	ExecFee         bool `json:"exec_fee"`
 	ValPaused       bool `json:"val_paused"`
 	ValInactive     bool `json:"val_inactive"`
@@ -74,13 +75,13 @@ type Features struct {
 }
 
 func AllFeatures() Features {
-	return Features{true, true, true, true, true, true, true, true, true, true, true, true, true, true, true, true, true, true, true, true, true, true, true, true, true, true, true,
+	return Features{true, true, true, true, true, true, true, true, true, false, true, true, true, true, true, true, true, true, true, true, true, true, true, true, true, true, true, true,
 		2, 2, 2, 4, false}
 }
 
 func RandomFeatures(r *hx.Rng) Features {
 	p := func() bool { return r.Chance(55) }
-	f := Features{RoleBlacklist: p(), ActorPerms: p(), ProposalVoting: p(), ProposalEnact: p(), ProposalDone: p(), DataRegistry: r.Chance(50), Poll: p(), Councilor: p(), Identity: p(), ExecFee: p(),
+	f := Features{RoleBlacklist: p(), ActorPerms: p(), ProposalVoting: p(), ProposalEnact: p(), ProposalDone: p(), DataRegistry: r.Chance(50), Poll: p(), Councilor: p(), Identity: p(), UniqueKeyClash: r.Chance(12), ExecFee: p(),
 		ValPaused: p(), ValInactive: p(), ValJailed: p(), ValJoin: p(), Absent: p(), Multistaking: p(), Undelegation: p(), Compound: p(), Basket: p(), Tokens: p(), Spending: p(),
 		Ubi: p(), Collective: p(), Custody: p(), Layer2: p(), Recovery: p(), Upgrade: r.Chance(25),
 		ExtraBlocks: r.Intn(4), NUndelegations: 1 + r.Intn(3), NRoles: 1 + r.Intn(3), Validators: 4 + r.Intn(2)}
@@ -194,6 +195,20 @@ func Populate(c *abci.Chain, f Features, r *hx.Rng) *World {
 		w.tx("request verify (pending)", 1, govtypes.NewMsgRequestIdentityRecordsVerify(A(1), A(2), []uint64{1}, coin("ukex", 300)))
 		w.tx("request verify (approved)", 1, govtypes.NewMsgRequestIdentityRecordsVerify(A(1), A(3), []uint64{2}, coin("ukex", 300)))
 		w.tx("approve verify", 3, govtypes.NewMsgHandleIdentityRecordsVerifyRequest(A(3), 2, true))
+	}
+	if f.Identity && f.UniqueKeyClash {
+		// two accounts hold the same value under a key that is THEN declared unique by a whole-record
+		// network-properties write (no uniqueness check on that path): InitGenesis refuses the export
+		w.tx("register twitter a4", 4, govtypes.NewMsgRegisterIdentityRecords(A(4), []govtypes.IdentityInfoEntry{{Key: "twitter", Info: "@a"}}))
+		w.step("tx:set network properties (unique keys += twitter)", func() error {
+			props := app.CustomGovKeeper.GetNetworkProperties(c.Ctx())
+			props.UniqueIdentityKeys = "moniker,username,twitter"
+			res := c.Deliver([]sdk.Msg{govtypes.NewMsgSetNetworkProperties(A(0), props)}, []int{0}, abci.DefaultFee())
+			if res.Code != 0 {
+				return fmt.Errorf("code %d: %s", res.Code, res.Log)
+			}
+			return nil
+		})
 	}
 	if f.Councilor {
 		w.tx("claim councilor", 0, govtypes.NewMsgClaimCouncilor(A(0), "council0", "user0", "desc", "soc", "contact", "avatar"))
